@@ -242,6 +242,9 @@ def rs_unwrap(rng, ids, style):
 
 def rs_clone(rng, ids, style):
     fn, var = f"copy_{ids.next()}", f"src{ids.next()}"
+    if style == "let":
+        lines = [f"fn {fn}({var}: Vec<i32>) -> usize {{", "    let total = 0;", f"    let copy = {var}.clone();", "    total + copy.len()", "}"]
+        return Unit(lines, [(2, "clone-abuse", "clone", "clone")], "rs_clone_let")
     if style == "multiline":
         lines = [f"fn {fn}({var}: Vec<i32>) {{", "    for _i in 0..3 {", f"        let _c = {var}", "            .clone();", "    }", "}"]
     else:
@@ -289,7 +292,7 @@ def rs_test(rng, ids, style):
     return Unit(lines, [], "rs_test_" + style)
 
 
-RS_UNITS = [(rs_nest, ["plain", "multiline", "attr"]), (rs_unwrap, ["plain", "chain", "nested_arg"]), (rs_clone, ["plain", "multiline"]),
+RS_UNITS = [(rs_nest, ["plain", "multiline", "attr"]), (rs_unwrap, ["plain", "chain", "nested_arg"]), (rs_clone, ["plain", "multiline", "let"]),
             (rs_blocking, ["plain", "multiline"]), (rs_magic, ["plain"]), (rs_srp, ["plain"]), (rs_filler, ["plain"]), (rs_test, ["fn", "module"])]
 
 UNITS = {"py": PY_UNITS, "ts": TS_UNITS, "rs": RS_UNITS}
